@@ -90,13 +90,13 @@ def check_c08(ctx):
     extra = {"trace_events_compared": pr.get("ct.events", 0),
              "components": {"real": "all of /repo/src with the repository's flags plus -fsanitize=thread -fsanitize-coverage=trace-pc (instrumentation only), gcc -O3, gcc -O0, clang -O3",
                             "simulated": "allocator, CPUID, stack and buffer placement (all fixed so that two executions are comparable event for event)"}}
-    rule = ("each seeded public plan (operation kinds, lengths, rounds, mode, back end via the CPU model, placements) is executed with 5 secret assignments (as generated, all-00, all-FF, two random) "
-            "for every key, tweak, counter, data and tweak-array byte; the sequence of basic blocks entered and of (address,size,read/write) accesses made by library code during the "
+    rule = ("each seeded public plan (operation kinds, lengths, rounds, mode, back end via the CPU model, placements) is executed with 7 secret assignments (as generated, all-00, all-FF, two random, all-01, all-80) "
+            "for every key, tweak, counter, data and tweak-array byte (seven since the bytes 01 and 80 were added); the sequence of basic blocks entered and of (address,size,read/write) accesses made by library code during the "
             "calls must be identical; distinct+non-trivial = distinct (kind, back end, op, state, size class) transitions traced")
     return props.finish(ctx, "exploration", rule, results, violations, findings, extra_cov=extra,
                         assumptions=["branches and addresses are observed at the compiler's instrumentation level of an instrumented build, not micro-architectural timing and not the exact shipped object code",
                                      "32-byte AVX accesses are not instrumented by either compiler (their addresses are still fixed by the preceding scalar code)",
-                                     "secrets are sampled: 5 assignments per public plan"])
+                                     "secrets are sampled: 7 assignments per public plan"])
 
 
 CHECKS = {"C18": check_c18, "C08": check_c08}
